@@ -62,7 +62,7 @@ Definition pt_code (p : pt) : N :=
   match p with
   | PGet => 0 | PLock => 1 | PRead => 2 | PUnlockR => 3 | PReadNL => 4 | PAvail => 5 | PCRead => 6
   | PCWrite => 7 | PCPut => 8 | PCCheck => 9 | PCSend => 10 | PDTransfer => 11 | PDPut => 12
-  | PNRead => 13 | PNWrite => 14 | PExit => 15 | PEnv => 16
+  | PNRead => 13 | PNWrite => 14 | PExit => 15 | PEnv => 16 | PDeref => 17
   end%N.
 Definition result_code (r : result) : N :=
   match r with
@@ -137,12 +137,59 @@ Definition seq_sched (ps : list (list op)) : list who :=
                      repeat (W (N.of_nat (S i))) (12 * n) ++ repeat Settler (2 * n + 2))
            (seq 0 (length ps)).
 
+(** ---- pointer freshness of the unPaidTraffic field ----
+    After a macro step at which nothing else is running, for every peer whose
+    lock is free and whose accountingPeer exists: is the *big.Int stored in the
+    field an object never observed before ([Some true]) or one seen at an earlier
+    observation ([Some false])?  [None]: not observable (lock held / no peer). *)
+Definition row := list (option bool).
+Definition row_of (sh : sh) (npeers : nat) (seen : list N) : row * list N :=
+  fold_left (fun (acc : row * list N) p =>
+               let '(r, sn) := acc in
+               match lock sh p, ptr sh p with
+               | None, Some a => if existsb (N.eqb a) sn then (r ++ [Some false], sn) else (r ++ [Some true], a :: sn)
+               | _, _ => (r ++ [None], sn)
+               end) (peers_upto npeers) ([], seen).
+
+Fixpoint go_all_obs (c : cfg) (s : st) (npeers : nat) (seen : list N) (ws : list (who * bool))
+  : st * list status * list (option row) :=
+  match ws with
+  | [] => (s, [], [])
+  | (w, ob) :: r =>
+      let '(s1, x) := go c s w in
+      let '(orow, seen1) := if ob then (let '(rw, sn) := row_of (shs s1) npeers seen in (Some rw, sn)) else (None, seen) in
+      let '(s2, xs, rs) := go_all_obs c s1 npeers seen1 r in
+      (s2, x :: xs, orow :: rs)
+  end.
+
+(** the implementation must be at least as fresh as the model: wherever the
+    model installs a new cell the implementation shows a never-seen object *)
+Definition cell_ok (m i : option bool) : bool :=
+  match m, i with
+  | None, None => true
+  | Some true, Some b => b
+  | Some false, Some _ => true
+  | _, _ => false
+  end.
+Fixpoint list_rel {A B} (f : A -> B -> bool) (a : list A) (b : list B) : bool :=
+  match a, b with
+  | [], [] => true
+  | x :: a', y :: b' => f x y && list_rel f a' b'
+  | _, _ => false
+  end.
+Definition orow_ok (m i : option row) : bool :=
+  match m, i with
+  | None, None => true
+  | Some a, Some b => list_rel cell_ok a b
+  | _, _ => false
+  end.
+
 Inductive case :=
 (** controlled history: configuration, initial stub state, programs (thread i+1
     runs the i-th), macro schedule with the status observed after each entry,
     observation at the end *)
 | CHist (thr tol : Z) (cap : nat) (re tr : list (N * Z)) (av : Z) (ps : list (list op))
-        (sched : list (who * N)) (obs : final)
+        (sched : list (who * N)) (obs : final) (rows : list (option row))
 (** free-running goroutines (real scheduler); only order-independent
     observables: final unpaid balances, transfer/retrieve totals, Pay calls per peer *)
 | CFree (thr tol : Z) (re tr : list (N * Z)) (av : Z) (ps : list (list op))
@@ -153,7 +200,7 @@ Definition count_pays (l : list (N * Z)) (p : N) : N :=
 
 Definition model_out (c : case) : list N * final * list N :=
   match c with
-  | CHist th tol cap re tr av ps sched obs =>
+  | CHist th tol cap re tr av ps sched obs rows =>
       let '(s, xs) := go_all (mk_cfg th tol cap) (st0 (mk_env re tr av) (mk_progs ps)) (map fst sched) in
       (map status_code xs, model_final s (npeers_of obs) (length ps), [])
   | CFree th tol re tr av ps unp retrs pc =>
@@ -165,7 +212,7 @@ Definition model_out (c : case) : list N * final * list N :=
   end.
 Definition obs_out (c : case) : list N * final * list N :=
   match c with
-  | CHist _ _ _ _ _ _ _ sched obs => (map snd sched, obs, [])
+  | CHist _ _ _ _ _ _ _ sched obs _ => (map snd sched, obs, [])
   | CFree _ _ _ _ _ _ unp retrs pc =>
       ([], {| f_unpaid := unp; f_locked := []; f_retr := retrs; f_transf := []; f_pays := [];
               f_held := None; f_chan := 0; f_results := [] |}, pc)
@@ -175,5 +222,21 @@ Definition out_eqb (a b : list N * final * list N) : bool :=
   list_eqb N.eqb (fst (fst a)) (fst (fst b)) && final_eqb (snd (fst a)) (snd (fst b)) &&
   list_eqb N.eqb (snd a) (snd b).
 
-Definition check_case (c : case) : bool := out_eqb (model_out c) (obs_out c).
-Definition explain_case (c : case) := (model_out c, obs_out c).
+Definition model_rows (c : case) : list (option row) :=
+  match c with
+  | CHist th tol cap re tr av ps sched obs rows =>
+      let ws := combine (map fst sched) (map (fun r : option row => match r with Some _ => true | None => false end) rows) in
+      let '(_, _, rs) := go_all_obs (mk_cfg th tol cap) (st0 (mk_env re tr av) (mk_progs ps)) (npeers_of obs) [] ws in
+      rs
+  | CFree _ _ _ _ _ _ _ _ _ => []
+  end.
+Definition obs_rows (c : case) : list (option row) :=
+  match c with CHist _ _ _ _ _ _ _ sched _ rows => rows | CFree _ _ _ _ _ _ _ _ _ => [] end.
+Definition rows_ok (c : case) : bool :=
+  match c with
+  | CHist _ _ _ _ _ _ _ sched _ rows => Nat.eqb (length sched) (length rows) && list_rel orow_ok (model_rows c) rows
+  | CFree _ _ _ _ _ _ _ _ _ => true
+  end.
+
+Definition check_case (c : case) : bool := out_eqb (model_out c) (obs_out c) && rows_ok c.
+Definition explain_case (c : case) := (model_out c, obs_out c, model_rows c, obs_rows c).
